@@ -348,6 +348,9 @@ pub fn key_universe_large() -> Vec<V> {
     u.push(V::Obj(vec![("b".into(), V::Int(1))]));
     u.push(V::Obj(vec![("a".into(), V::Int(1)), ("b".into(), V::Int(2))]));
     u.push(V::Obj(vec![("a".into(), V::Str("x".into()))]));
+    // the same members written in another order, and a neighbour in between
+    u.push(V::Obj(vec![("b".into(), V::Int(2)), ("a".into(), V::Int(1))]));
+    u.push(V::Obj(vec![("a".into(), V::Int(1)), ("b".into(), V::Int(3))]));
     u
 }
 
